@@ -138,3 +138,17 @@ Lemma ssm_8bit_refused : forall X F cfg render m st,
   send_single X F cfg render m st =
     (st, mkRes (Some (mkSE reason_no_unencoded 0 false [] [] O)) false None).
 Proof. intros X F cfg render m st H1 H2. unfold send_single. rewrite H1, H2. reflexivity. Qed.
+
+(* The ESMTP parameters of MAIL and RCPT are a function of the extension map (and the configured DSN options) only -
+   the address does not occur in them - and every one of them is covered by the set the map came from. *)
+Lemma params_from_advertised : forall X (c : cli) (w : world) (e : list ext) (from to : bytes),
+  (forall l, c_ext c = Some l -> l = e) ->
+  do_mail X from (c, w) = do_cmd (x_mail X) (CMail from (mail_params c)) (c, w) /\
+  do_rcpt X to (c, w) = do_cmd (x_rcpt X) (CRcpt to (rcpt_params c)) (c, w) /\
+  forallb (mail_param_ok e) (mail_params c) = true /\ forallb (rcpt_param_ok e) (rcpt_params c) = true /\
+  (c_ext c = None -> mail_params c = [] /\ rcpt_params c = []).
+Proof.
+  intros X c w e from to H. split; [reflexivity|]. split; [reflexivity|].
+  split; [apply mail_params_legal; exact H|]. split; [apply rcpt_params_legal; exact H|].
+  intros E. unfold mail_params, rcpt_params. rewrite E. auto.
+Qed.
